@@ -29,15 +29,16 @@ class Infeasible(Exception):
 class IV:
     """integer value: term (python int or z3 Int) + rust type; tz = known number
     of trailing zero bits, ub = value known < 2^ub (None = unknown)."""
-    __slots__ = ("t", "ty", "tz", "ub")
+    __slots__ = ("t", "ty", "tz", "ub", "ex")
 
-    def __init__(self, t, ty, tz=0, ub=None):
+    def __init__(self, t, ty, tz=0, ub=None, ex=None):
         if isinstance(t, bool):
             t = int(t)
         self.t = t
         self.ty = ty
         self.tz = tz
         self.ub = ub
+        self.ex = ex        # exact (unwrapped) term with t = ex mod 2^w, for chains of wrapping ops
 
     def __repr__(self):
         return "IV(%s:%s)" % (self.t, self.ty)
@@ -349,6 +350,7 @@ class State:
         self.next_uid = 0
         self.trace = []         # (fn, bb) for reachability / debugging
         self.tags = {}
+        self.groups = []        # droppable definitions: (tuple of fresh vars, tuple of constraints)
 
     def copy(self):
         s = State()
@@ -364,6 +366,7 @@ class State:
         s.next_uid = self.next_uid
         s.trace = list(self.trace)
         s.tags = dict(self.tags)
+        s.groups = list(self.groups)
         return s
 
     def frame(self, uid):
@@ -392,6 +395,73 @@ class State:
 
     def constraints(self):
         return self.defs + self.pc
+
+    def define(self, fresh_vars, constraints):
+        """definition of fresh variables (always satisfiable); may be dropped from a VC when unused"""
+        cs = tuple(constraints)
+        self.defs.extend(cs)
+        self.groups.append((tuple(fresh_vars), cs))
+
+    def pruned_constraints(self, goal=None, extra=()):
+        """constraints without the definitions of fresh variables that nothing else mentions"""
+        allc = self.defs + self.pc + list(extra)
+        if not self.groups:
+            return allc
+        occ = {}
+
+        def vars_of(e):
+            i = e.get_id()
+            if i in occ:
+                return occ[i]
+            out = set()
+            stack = [e]
+            seen = set()
+            while stack:
+                x = stack.pop()
+                xi = x.get_id()
+                if xi in seen:
+                    continue
+                seen.add(xi)
+                if z3.is_const(x) and x.decl().kind() == z3.Z3_OP_UNINTERPRETED:
+                    out.add(xi)
+                else:
+                    stack.extend(x.children())
+            occ[i] = out
+            return out
+        gmap = {}
+        for gi, (vs, cs) in enumerate(self.groups):
+            for c in cs:
+                gmap[c.get_id()] = gi
+        count = {}
+        base = [c for c in allc if not isinstance(c, bool)]
+        if goal is not None and not isinstance(goal, bool):
+            base = base + [goal]
+        cvars = [(c, gmap.get(c.get_id()), vars_of(c)) for c in base]
+        dropped = set()
+        changed = True
+        while changed:
+            changed = False
+            used_outside = {}
+            for c, gi, vs in cvars:
+                if gi is not None and gi in dropped:
+                    continue
+                for v in vs:
+                    used_outside.setdefault(v, set()).add(gi)
+            for gi, (vs, cs) in enumerate(self.groups):
+                if gi in dropped:
+                    continue
+                ok = True
+                for v in vs:
+                    users = used_outside.get(v.get_id(), set())
+                    if users - {gi}:
+                        ok = False
+                        break
+                if ok:
+                    dropped.add(gi)
+                    changed = True
+        if not dropped:
+            return allc
+        return [c for c in allc if isinstance(c, bool) or gmap.get(c.get_id()) not in dropped]
 
     def known(self, c):
         """True / False if the boolean term c (or its negation) was assumed on this path, else None"""
@@ -469,6 +539,9 @@ class Executor:
         self.contracts = {}     # last-seg name -> python callable(ex, st, args, fr) -> value | None
         self.max_paths = 200000
         self.encoded_fns = set()
+        self.lemma_hooks = {}   # last-seg fn name -> callback(ex, st, frame) -> [(name, formula)]
+        self.lemma_log = []
+        self.lemma_timeout_ms = 120000
 
     # ---- solver helpers -------------------------------------------------
     def count(self, k, n=1):
@@ -866,8 +939,7 @@ class Executor:
             return st.divcache[key]
         q = T.fresh_int("q2")
         r = T.fresh_int("r2")
-        st.defs.append(t == q * (1 << k) + r)
-        st.defs.append(z3.And(r >= 0, r < (1 << k)))
+        st.define((q, r), (t == q * (1 << k) + r, z3.And(r >= 0, r < (1 << k))))
         st.divcache[key] = (q, r)
         return q, r
 
@@ -884,17 +956,24 @@ class Executor:
         r = T.fresh_int("r")
         signed = INT_TYPES[ty][0]
         A, Bt = T.I(a), T.I(b)
-        st.defs.append(A == q * Bt + r)
+        cs = [A == q * Bt + r]
         if not signed:
-            st.defs.append(z3.And(r >= 0, r < Bt))
-            st.defs.append(q >= 0)
+            cs.append(z3.And(r >= 0, r < Bt))
+            cs.append(q >= 0)
         elif is_conc(b):
             ab = abs(b)
-            st.defs.append(z3.If(A >= 0, z3.And(r >= 0, r < ab), z3.And(r <= 0, r > -ab)))
+            ka = st.known(A >= 0)
+            if ka is True:
+                cs.append(z3.And(r >= 0, r < ab))
+            elif ka is False:
+                cs.append(z3.And(r <= 0, r > -ab))
+            else:
+                cs.append(z3.If(A >= 0, z3.And(r >= 0, r < ab), z3.And(r <= 0, r > -ab)))
         else:
             absb = z3.If(Bt >= 0, Bt, -Bt)
-            st.defs.append(z3.If(A >= 0, r >= 0, r <= 0))
-            st.defs.append(z3.And(r < absb, r > -absb))
+            cs.append(z3.If(A >= 0, r >= 0, r <= 0))
+            cs.append(z3.And(r < absb, r > -absb))
+        st.define((q, r), cs)
         st.divcache[key] = (q, r)
         return q, r
 
@@ -926,10 +1005,14 @@ class Executor:
             flag = T.bnot(T.in_range(ex, ty))
             return OvfT(ex, ty, flag)
         if op in ("Add", "Sub", "Mul", "AddUnchecked", "SubUnchecked", "MulUnchecked"):
-            ex = {"A": T.add, "S": T.sub, "M": T.mul}[op[0]](a.t, b.t)
+            fnop = {"A": T.add, "S": T.sub, "M": T.mul}[op[0]]
+            ex = fnop(a.t, b.t)
             if op.endswith("Unchecked"):
                 return IV(ex, ty)
-            return IV(self.wrap(st, ex, ty), ty)
+            if a.ex is not None or b.ex is not None:
+                ex = fnop(a.ex if a.ex is not None else a.t, b.ex if b.ex is not None else b.t)
+            w = self.wrap(st, ex, ty)
+            return IV(w, ty, ex=None if w is ex else ex)
         if op in ("Div", "Rem"):
             q, r = self.tdivmod(st, a.t, b.t, ty)
             if op == "Div":
@@ -1169,7 +1252,11 @@ class Executor:
                 # merge one bucket
                 key = sorted(parked.keys())[0]
                 sts = parked.pop(key)
-                work.append(self.merge_states(sts))
+                merged = self.merge_states(sts)
+                hook = self.lemma_hooks.get(Program._last_seg(merged.frames[-1].fn.name))
+                if hook is not None:
+                    self.apply_lemmas(merged, hook)
+                work.append(merged)
                 continue
             st = work.pop()
             try:
@@ -1192,6 +1279,38 @@ class Executor:
         saved = st0.tags.get("barrier")
         outs = self.explore(st0)
         return outs
+
+    def apply_lemmas(self, st, hook):
+        """prove intermediate lemmas at a merge point and add the proven ones as assumptions"""
+        fr = st.frames[-1]
+        try:
+            lemmas = hook(self, st, fr)
+        except Exception as e:      # a changed function body may not have the expected locals
+            self.lemma_log.append(("hook failed: %s" % e, "skipped", 0.0))
+            return
+        for name, formula in lemmas:
+            t0 = time.time()
+            s = z3.Solver()
+            s.set("timeout", self.lemma_timeout_ms)
+            for c in st.pruned_constraints(formula):
+                s.add(c)
+            s.add(z3.Not(formula))
+            r = s.check()
+            dt = time.time() - t0
+            self.lemma_log.append((name, str(r), round(dt, 2)))
+            self.count("lemma_queries")
+            if r == z3.unsat:
+                st.defs.append(formula)
+                self.count("lemmas_proved")
+
+    def local_by_name(self, st, fr, name, which=-1):
+        locs = fr.fn.debug.get(name)
+        if not locs:
+            raise Unsupported("no local named %s in %s" % (name, fr.fn.name))
+        v = fr.locals[locs[which]]
+        while isinstance(v, RefV):
+            v = self.read_ref(st, v)
+        return v
 
     def merge_points(self, fn):
         if fn.name in self._merge_points:
